@@ -43,6 +43,7 @@ func runC17(t *testing.T, e *worlds.Env, tier string) (bool, any) {
 	var rate, trate float64
 	var burst, tburst int
 	var latency time.Duration
+	burstOnly := false
 	markAt := map[int]time.Duration{}
 	e.Run(t, func() func() bool {
 		e.N.Cfg = netKnobs(e)
@@ -62,6 +63,16 @@ func runC17(t *testing.T, e *worlds.Env, tier string) (bool, any) {
 		}
 		if trate > 0 {
 			tburst = tp.Pick("tburst", 0, 1, 7, 512, 4096, 65536)
+		}
+		// a burst without a rate is a byte budget: burst + 0 x T
+		burstOnly = !latencyOnly && tp.Prob(1, 10, "burst-only")
+		if burstOnly {
+			rate, trate, burst, tburst = 0, 0, 0, 0
+			if tp.Prob(1, 2, "burst-only-total") {
+				tburst = tp.Pick("bo-tburst", 100, 7, 4096)
+			} else {
+				burst = tp.Pick("bo-burst", 100, 7, 4096)
+			}
 		}
 		latency = time.Duration(tp.Pick("latency-ms", 0, 0, 1, 300, 2000)) * time.Millisecond
 		if latencyOnly && latency == 0 {
@@ -138,9 +149,11 @@ func runC17(t *testing.T, e *worlds.Env, tier string) (bool, any) {
 		}
 		return w.Done
 	}, func() {
-		if e.S.Capped {
+		if e.S.Capped && !burstOnly {
 			return
 		}
+		// (a burst without a rate never refills: the shipped handler then waits for good and the
+		// run ends at the time cap; what was read until then is judged all the same)
 		type rd struct {
 			at time.Duration
 			n  int
@@ -179,7 +192,7 @@ func runC17(t *testing.T, e *worlds.Env, tier string) (bool, any) {
 					waited = true
 				}
 				prev = r.At
-				if rate > 0 {
+				if rate > 0 || (burstOnly && burst > 0) {
 					bound := float64(burst) + rate*(r.At-t0).Seconds() + 0.05
 					if float64(cum) > bound {
 						e.S.Fail("C17/rate-exceeded", "per-conn", "conn %d: %d bytes read by T=%v after the first read; limit burst %d + %v B/s * T = %.2f",
@@ -190,7 +203,7 @@ func runC17(t *testing.T, e *worlds.Env, tier string) (bool, any) {
 			}
 			sample.Reads += len(se.Reads)
 		}
-		if trate > 0 && len(all) > 0 {
+		if (trate > 0 || (burstOnly && tburst > 0)) && len(all) > 0 {
 			// sort by time (stable: already per-conn ordered; merge)
 			for i := 1; i < len(all); i++ {
 				for j := i; j > 0 && all[j].at < all[j-1].at; j-- {
